@@ -125,6 +125,11 @@ func driveStream(c *DriverCtx) error {
 	all := c.types()
 	r := c.G.R
 	for _, t := range all {
+		if BodyField(t) != nil {
+			if err := streamAfterRefusal(c, t); err != nil {
+				return err
+			}
+		}
 		for i := 0; i < c.N; i++ {
 			k := 1 + r.Intn(4)
 			if r.Intn(10) == 0 {
@@ -178,6 +183,59 @@ func driveStream(c *DriverCtx) error {
 	return nil
 }
 
+// a receive loop on ONE receiver that meets a message cut short (a partial segment) between two complete
+// messages carrying different body / extension types: X, a truncated Y (refused), the complete Y, X again
+func streamAfterRefusal(c *DriverCtx, t string) error {
+	tab, ok := tableOwnedBy(t)
+	if !ok || len(tab.Entries) < 2 {
+		return nil
+	}
+	lo, hi := tab.Entries[0], tab.Entries[0]
+	for _, e := range tab.Entries {
+		if len(S.Types[e.Type].Fields) < len(S.Types[lo.Type].Fields) {
+			lo = e
+		}
+		if len(S.Types[e.Type].Fields) > len(S.Types[hi.Type].Fields) {
+			hi = e
+		}
+	}
+	bf := BodyField(t)
+	rnd := tab.Entries[c.G.R.Intn(len(tab.Entries))]
+	for _, pr := range [][2]TableEntry{{lo, hi}, {hi, lo}, {rnd, lo}} {
+		x, y := c.G.Value(t, Canon), c.G.Value(t, Canon)
+		x[tab.KeyField], x[bf.Name] = pr[0].Key, c.G.Value(pr[0].Type, Canon)
+		y[tab.KeyField], y[bf.Name] = pr[1].Key, c.G.Value(pr[1].Type, Canon)
+		m := NewMachine()
+		if _, err := m.Exec(Op{Op: "new", O: "y", V: y}); err != nil {
+			return err
+		}
+		ev, err := m.Exec(Op{Op: "encode", B: "b", O: "y"})
+		if err != nil {
+			return err
+		}
+		n := len(ev.Post)
+		if n < 3 {
+			continue
+		}
+		for _, k := range []int{n - 1, n / 2, n / 4, 1 + c.G.R.Intn(n-1)} {
+			if k < 1 {
+				continue
+			}
+			ops := []Op{{Op: "new", O: "x", V: x}, {Op: "new", O: "y", V: y},
+				{Op: "encode", B: "b", O: "x"}, {Op: "encode", B: "b", O: "y"}, {Op: "encode", B: "b", O: "x"}, {Op: "encode", B: "bsolo", O: "y"},
+				{Op: "decode", B: "b", O: "recv", T: t, Fresh: true, Tag: "recycled-receiver"},
+				{Op: "cut", B: "bc", From: "bsolo", K: k}, {Op: "decode", B: "bc", O: "recv", T: t, Tag: "truncated-into-used-receiver"},
+				{Op: "decode", B: "b", O: "recv", T: t, Tag: "recycled-receiver-after-refusal"},
+				{Op: "decode", B: "b", O: "recv", T: t, Tag: "recycled-receiver"},
+				{Op: "peek", B: "b"}}
+			if err := c.Run(ops); err != nil {
+				return err
+			}
+		}
+	}
+	return nil
+}
+
 // Truncations (C11): every cut position of a canonical encoding.
 func driveCut(c *DriverCtx) error {
 	for _, t := range c.types() {
@@ -219,6 +277,47 @@ func driveCut(c *DriverCtx) error {
 			if err := c.Run(ops); err != nil {
 				return err
 			}
+			// the same cuts decoded into ONE used receiver that holds an earlier message of this type (another
+			// body / extension type, longer lists): what the receiver holds must not complete a truncated message
+			if i == 0 && (BodyField(t) != nil || hasKind(t, "objlist") || hasKind(t, "obj")) {
+				c.G.MaxList = 6
+				other := c.G.Value(t, Canon)
+				c.G.MaxList = 3
+				vv := v
+				if tab, ok := tableOwnedBy(t); ok && !IsFrame(t) {
+					// the receiver holds the SHORTEST registered body / extension, the truncated message carries the longest
+					lo, hi := tab.Entries[0], tab.Entries[0]
+					for _, e := range tab.Entries {
+						if len(S.Types[e.Type].Fields) < len(S.Types[lo.Type].Fields) {
+							lo = e
+						}
+						if len(S.Types[e.Type].Fields) > len(S.Types[hi.Type].Fields) {
+							hi = e
+						}
+					}
+					bf := BodyField(t)
+					other[tab.KeyField], other[bf.Name] = lo.Key, c.G.Value(lo.Type, Canon)
+					vv = c.G.Value(t, Canon)
+					vv[tab.KeyField], vv[bf.Name] = hi.Key, c.G.Value(hi.Type, Canon)
+				}
+				ops3 := []Op{{Op: "new", O: "m", V: vv}, {Op: "encode", B: "bref", O: "m", Tag: "reference"},
+					{Op: "new", O: "mo", V: other}, {Op: "encode", B: "bo", O: "mo"}, {Op: "decode", B: "bo", O: "used", T: t, Fresh: true, Tag: "make-dirty"}}
+				m3 := NewMachine()
+				if _, err := m3.Exec(Op{Op: "new", O: "m", V: vv}); err != nil {
+					return err
+				}
+				ev3, err := m3.Exec(Op{Op: "encode", B: "b", O: "m"})
+				if err != nil {
+					return err
+				}
+				for k := 0; k < len(ev3.Post) && k < 700; k++ {
+					b := fmt.Sprintf("c%d", k)
+					ops3 = append(ops3, Op{Op: "cut", B: b, From: "bref", K: k}, Op{Op: "decode", B: b, O: "used", T: t, Tag: "truncated-into-used-receiver"})
+				}
+				if err := c.Run(ops3); err != nil {
+					return err
+				}
+			}
 			// the same with the frame's checksum service removed from the registry (the encoder then
 			// keeps the caller's checksum; a truncated frame must still be rejected)
 			if alg := checksumAlgOf(t); alg != "" && i == 0 {
@@ -235,6 +334,24 @@ func driveCut(c *DriverCtx) error {
 		}
 	}
 	return nil
+}
+
+func tableOwnedBy(t string) (Table, bool) {
+	for _, tn := range TableNames() {
+		if S.Tables[tn].Owner == t {
+			return S.Tables[tn], true
+		}
+	}
+	return Table{}, false
+}
+
+func hasKind(t, kind string) bool {
+	for _, f := range S.Types[t].Fields {
+		if f.Kind == kind {
+			return true
+		}
+	}
+	return false
 }
 
 func checksumAlgOf(t string) string {
@@ -498,6 +615,24 @@ func driveDirty(c *DriverCtx) error {
 			// a receiver built by the caller in which one nested object is referenced more than once
 			ops = append(ops, Op{Op: "new", O: "shared", V: dirty}, Op{Op: "sharepointers", O: "shared"}, Op{Op: "encode", B: "b5", O: "m"},
 				Op{Op: "decode", B: "b5", O: "shared", T: t, Tag: "into-built-with-shared-parts"})
+			// ... and one in which every position of a repeating group is the SAME entry object; the incoming
+			// message has at least two different entries there
+			for _, f := range S.Types[t].Fields {
+				if f.Kind != "objlist" {
+					continue
+				}
+				v3 := c.G.Value(t, Canon)
+				lst := asList(v3[f.Name])
+				for len(lst) < 2+i%2 {
+					lst = append(lst, c.G.Value(f.Type, Canon))
+				}
+				v3[f.Name] = lst
+				ops = append(ops, Op{Op: "new", O: "m3", V: v3}, Op{Op: "encode", B: "b6", O: "m3"}, Op{Op: "encode", B: "b7", O: "m3"},
+					Op{Op: "decode", B: "b6", O: "fresh3", T: t, Fresh: true},
+					Op{Op: "new", O: "dup", V: dirty}, Op{Op: "duppointers", O: "dup"},
+					Op{Op: "decode", B: "b7", O: "dup", T: t, Tag: "into-built-with-one-entry-object-repeated"})
+				break
+			}
 			if n := len(ev.Post); n > 1 && BodyField(t) != nil {
 				// for types that choose a body / extension by a key: the failed decode stops at EVERY one of the first offsets
 				lim := 14
@@ -800,6 +935,29 @@ func driveEncodeAny(c *DriverCtx) error {
 		for i := 0; i < c.N; i++ {
 			v := c.G.Value(t, Wild)
 			if err := c.Run([]Op{{Op: "new", O: "m", V: v}, {Op: "encode", B: "b", O: "m", Tag: "wild"}}); err != nil {
+				return err
+			}
+		}
+		// one buffer used as a producer/consumer queue: encodes into a buffer that has been partly read, drained,
+		// reset, or that has little / much spare capacity left
+		for i := 0; i < (c.N+1)/2; i++ {
+			v := c.G.Value(t, Canon)
+			ops := []Op{{Op: "new", O: "q", V: v}}
+			switch i % 3 {
+			case 1:
+				ops = append(ops, Op{Op: "write", B: "b", Bytes: make([]int, 5000)}, Op{Op: "next", B: "b", K: 5000})
+			case 2:
+				ops = append(ops, Op{Op: "write", B: "b", Bytes: c.junk(1 + c.G.R.Intn(60))}, Op{Op: "next", B: "b", K: 1})
+			}
+			ops = append(ops, Op{Op: "encode", B: "b", O: "q", Tag: "queue"}, Op{Op: "encode", B: "b", O: "q", Tag: "queue"})
+			for k := 0; k < 5; k++ {
+				ops = append(ops, Op{Op: "decode", B: "b", O: "qr", T: t, Fresh: k == 0, Tag: "queue"}, Op{Op: "encode", B: "b", O: "q", Tag: "queue: into a partly read buffer"})
+				if k == 2 {
+					ops = append(ops, Op{Op: "next", B: "b", K: 1 + c.G.R.Intn(7)})
+				}
+			}
+			ops = append(ops, Op{Op: "reset", B: "b"}, Op{Op: "encode", B: "b", O: "q", Tag: "queue: after reset"})
+			if err := c.Run(ops); err != nil {
 				return err
 			}
 		}
